@@ -43,10 +43,10 @@ ASSUMPTIONS = [
 ]
 BUDGET = {"quick": {"worker_timeout": 600, "case_timeout": 60}, "thorough": {"worker_timeout": 3000, "case_timeout": 120}}
 REQUIRED_COUNTERS = {
-    "quick": {"legvec_exact_entries_checked": 5000, "abscissae_compared": 5000, "form_num": 50, "form_int": 10, "form_t0": 50, "form_t1": 50,
+    "quick": {"extra_limdtype_compared": 80, "extra_alias_compared": 60, "legvec_exact_entries_checked": 5000, "abscissae_compared": 5000, "form_num": 50, "form_int": 10, "form_t0": 50, "form_t1": 50,
               "form_mixed": 50, "style_pure_num_calls": 30, "inf_both": 10, "inf_half": 10, "tuple_components_checked": 50,
               "poly_linearity_checked": 50, "poly_swap_checked": 50, "poly_additivity_checked": 50, "float32_cases": 30},
-    "thorough": {"legvec_exact_entries_checked": 50000, "abscissae_compared": 50000, "form_num": 500, "form_int": 100, "form_t0": 500,
+    "thorough": {"extra_limdtype_compared": 800, "extra_alias_compared": 600, "legvec_exact_entries_checked": 50000, "abscissae_compared": 50000, "form_num": 500, "form_int": 100, "form_t0": 500,
                  "form_t1": 500, "form_mixed": 500, "style_pure_num_calls": 300, "inf_both": 100, "inf_half": 100,
                  "tuple_components_checked": 500, "poly_linearity_checked": 500, "poly_swap_checked": 500, "poly_additivity_checked": 500,
                  "float32_cases": 300},
@@ -152,6 +152,8 @@ def cases(seed, tier):
         out.append({"group": "tuple", "seed": sub_seed(seed, "c12tus", i), "n": rng.choice([1, 2, 3, 5, 8, 16, 33, 100]),
                     "ncomp": rng.randint(1, 4), "container": rng.choice(["tuple", "list"]), "form": FORMS[i % len(FORMS)],
                     "dtype": "float32" if f32 else "float64", "xl": xl, "xu": xu})
+    from vf import c12_extra
+    out.extend(c12_extra.cases(seed, tier))
     return out
 
 
@@ -592,6 +594,9 @@ GROUPS = {"legvec": run_legvec, "poly": run_poly, "smooth": run_smooth, "inf": r
 
 
 def run_case(desc):
+    if desc.get("group") == "extra":
+        from vf import c12_extra
+        return c12_extra.run_case(desc)
     obs = Obs(desc)
     count_form(obs, desc["form"])
     if desc["dtype"] == "float32":
